@@ -70,6 +70,10 @@ class MH(ProposalBasedSampler):
         elif not isinstance(value, cuqi.distribution.Distribution) and callable(value):
             raise NotImplementedError(fail_msg)
         elif isinstance(value, cuqi.distribution.Distribution) and value.is_symmetric:
+            # The proposal is used as a random-walk increment: it has to be symmetric about zero
+            mean = getattr(value, "mean", None)
+            if mean is not None and not callable(mean) and np.any(np.asarray(mean) != 0):
+                raise ValueError(fail_msg)
             self._proposal = value
         else:
             raise ValueError(fail_msg)
